@@ -16,7 +16,7 @@ class DomainMappingEval(EvalContract):
     qual = 'symbolic:DomainMapping._evaluate__'
     uses_position = True
     cls = 'DomainMapping'
-    props = ('C01', 'C02', 'C03', 'C15', 'C16', 'C19')
+    props = ('C01', 'C02', 'C03', 'C15', 'C16', 'C19', 'C07')
 
     def shape_facts(self, n):
         c = Z.f_child(n)
@@ -48,7 +48,7 @@ class ComparatorEval(EvalContract):
     position, so every binding of them is needed whatever its truthiness (C19)."""
     qual = 'symbolic:Comparator._evaluate__'
     cls = 'Comparator'
-    props = ('C01', 'C02', 'C15', 'C19')
+    props = ('C01', 'C02', 'C15', 'C19', 'C07')
     inline = ('get_first_second_operands', 'apply_operation', 'update_cache')
 
     def children(self, n):
@@ -84,7 +84,7 @@ class ANDEval(EvalContract):
     produced under the left row (bindings threaded left to right)."""
     qual = 'symbolic:AND._evaluate__'
     cls = 'AND'
-    props = ('C01', 'C02', 'C03')
+    props = ('C01', 'C02', 'C03', 'C07')
     inline = ('update_cache',)
 
     def children(self, n):
@@ -103,7 +103,7 @@ class ElseIfEval(EvalContract):
     """symbolic.ElseIf._evaluate__ (result cache off).  Spec: Den = Den(left) or Den(right), each binding once."""
     qual = 'symbolic:ElseIf._evaluate__'
     cls = 'ElseIf'
-    props = ('C01', 'C02', 'C03')
+    props = ('C01', 'C02', 'C03', 'C07')
     inline = ('update_cache',)
 
     def children(self, n):
